@@ -53,6 +53,18 @@ fn main() {
     // Panics inside monitors/harness must not look like a verdict: report them as harness errors.
     let report: Report = match prop.as_str() {
         "smoke" => props::smoke::run(&p),
+        "maxrec" => {
+            props::smoke::max_record();
+            return;
+        }
+        "rawrec" => {
+            props::smoke::raw_rec();
+            return;
+        }
+        "poolsizes" => {
+            props::smoke::pool_sizes();
+            return;
+        }
         _ => match props::dispatch(&prop, &p) {
             Some(r) => r,
             None => usage(),
